@@ -235,6 +235,13 @@ INFO = {
 def obligations(tier, seed):
     obs = []
     L = 2 if tier == "quick" else 4
+    # loads() = INCLUDE pre-pass, then scanner/parser/transformer: the template-symbolic runs below feed hole values in *after* the
+    # pre-pass, so its transparency on INCLUDE-free text (for arbitrary string contents) is an obligation of its own (C15's harness)
+    from checks import C15
+    for o in C15.obligations(tier, seed):
+        if o.name.startswith("C15-IDENT/"):
+            o.name = o.name.replace("C15-IDENT/", "C02-PRE/identity.")
+            obs.append(o)
     for name, (text, holes, exp) in SK.items():
         params, pre, build = [], [], []
         for h in holes:
